@@ -305,8 +305,12 @@ def literal_case(acc, r, sample=False):
         text = "{ english = " + a + ", german=" + b + r.choice(["", ","]) + " }"
         want = ("lang", (("english", wa[1]), ("german", wb[1])))
     indent = "    " * r.randint(0, 3)
+    # (a file saved with other line terminators has them inside its multi-line literals as well: the value is the same)
+    eol = r.choice(["\n", "\n", "\r\n", "\r"]) if kind in ("multi", "lang") else "\n"
     for lang in ("exps", "ssbs"):
-        src = f"def 0 {{\n{indent}lit_op({text});\n}}\n"
+        src = f"def 0 {{\n{indent}lit_op({text});\n}}\n".replace("\n", eol)
+        if eol != "\n":
+            acc.count("literal_sources_with_other_line_terminators")
         inp = {"literal": text, "kind": kind, "lang": lang, "source": src}
         acc.announce("literal", inp)
         try:
